@@ -960,3 +960,62 @@ Proof.
   repeat (apply Forall_cons; [repeat (apply Forall_cons; [apply good_tok_intro; [discriminate|reflexivity]|]); apply Forall_nil|]).
   apply Forall_nil.
 Qed.
+
+(* ------------------------------------------------------------------ saving onto the file the data are mapped from *)
+Lemma fs_get_set_same fs n b : fs_get (fs_set fs n b) n = Some b.
+Proof. unfold fs_set. cbn. now rewrite Z.eqb_refl. Qed.
+Lemma fs_get_set_other fs n n' b : n' <> n -> fs_get (fs_set fs n b) n' = fs_get fs n'.
+Proof. intros H. unfold fs_set. cbn. destruct (Z.eqb_spec n n'); [congruence|reflexivity]. Qed.
+
+Lemma buf_read_other fs target b buf : aliases buf target = false -> buf_read (fs_set fs target b) buf = buf_read fs buf.
+Proof.
+  destruct buf as [v|name off len]; [reflexivity|]. cbn [aliases buf_read]. intros H.
+  rewrite fs_get_set_other; [reflexivity|]. intros ->. now rewrite Z.eqb_refl in H.
+Qed.
+
+(* the contract of unmap_if_target: whoever copies every array that aliases the target (and may copy
+   others) writes exactly the value the array had before the save, whatever the file system holds *)
+Lemma mgh_save_contract fs target m buf copies value :
+  wf_mgh m value -> buf_read fs buf = Ok value ->
+  (aliases buf target = true -> copies = true) ->
+  exists fs', mgh_save fs target m buf copies = Ok fs'
+    /\ fs_get fs' target = Some (mgh_write m value)
+    /\ (forall f, fs_get fs' target = Some f -> mgh_read f = Ok (m, value))
+    /\ (forall n, n <> target -> fs_get fs' n = fs_get fs n).
+Proof.
+  intros Hwf Hv Hc. unfold mgh_save.
+  assert (Hstep : forall b, buf_read (fs_set fs target (hdr_bytes m ++ zeros (DATA_OFFSET - zlen (hdr_bytes m)))) b = Ok value ->
+    exists fs', (match buf_read (fs_set fs target (hdr_bytes m ++ zeros (DATA_OFFSET - zlen (hdr_bytes m)))) b with
+                 | Err e => Err e | Ok data => Ok (fs_set fs target (mgh_write m data)) end) = Ok fs'
+      /\ fs_get fs' target = Some (mgh_write m value)
+      /\ (forall f, fs_get fs' target = Some f -> mgh_read f = Ok (m, value))
+      /\ (forall n, n <> target -> fs_get fs' n = fs_get fs n)).
+  { intros b Hb. rewrite Hb. eexists. split; [reflexivity|]. rewrite fs_get_set_same. split; [reflexivity|]. split.
+    - intros f E. inversion E; subst. now apply mgh_roundtrip.
+    - intros n Hn. now apply fs_get_set_other. }
+  destruct copies.
+  - rewrite Hv. apply Hstep. reflexivity.
+  - apply Hstep. rewrite buf_read_other; [assumption|].
+    destruct (aliases buf target); [specialize (Hc eq_refl); discriminate|reflexivity].
+Qed.
+
+Lemma mgh_save_unmap fs target m buf value :
+  wf_mgh m value -> buf_read fs buf = Ok value ->
+  exists fs', mgh_save fs target m buf (unmap_if_target_decision buf target) = Ok fs'
+    /\ (forall f, fs_get fs' target = Some f -> mgh_read f = Ok (m, value)).
+Proof.
+  intros Hwf Hv. destruct (mgh_save_contract fs target m buf _ value Hwf Hv (fun H => H)) as (fs' & H1 & _ & H3 & _).
+  exists fs'. split; assumption.
+Qed.
+
+(* without the copy, a map of the target's data region is read after the truncation: undefined *)
+Lemma mgh_save_alias_refuted fs target m len :
+  0 < len -> zlen (hdr_bytes m) <= DATA_OFFSET ->
+  mgh_save fs target m (Mapped target DATA_OFFSET len) false = Err ErrAlias.
+Proof.
+  intros Hl Hh. unfold mgh_save. cbn [buf_read]. rewrite fs_get_set_same.
+  assert (E : zlen (hdr_bytes m ++ zeros (DATA_OFFSET - zlen (hdr_bytes m))) = DATA_OFFSET).
+  { rewrite zlen_app, zeros_length by lia. lia. }
+  rewrite E. unfold DATA_OFFSET in *.
+  destruct (Z.leb_spec (284 + len) 284); [lia|]. now rewrite andb_false_r.
+Qed.
